@@ -429,6 +429,31 @@ func runC09(env *lib.Env, rep *lib.Report) {
 			}
 		}
 	}
+	// ---- (v-b) one long token full of lexical errors (invalid escapes, NUL bytes, invalid UTF-8), terminated and
+	// not: besides terminating without a panic, tokenising and parsing may allocate only in proportion to the
+	// input (1 MiB + 1000 bytes per input byte; the unchanged parser stays below 150 bytes per input byte)
+	rep.Bounds["(v-b) long tokens full of lexical errors"] = "a literal / delimited identifier / bare run of 4096, 16384 and 70000 bytes of \\q, NUL, 0xff and 0xc3, closed and unclosed: no panic, and at most 1 MiB + 1000 x input length bytes allocated"
+	for _, total := range []int{4096, 16384, 70000} {
+		for _, unit := range []string{"\\q", "\x00", "\xff", "\xc3", "\\"} {
+			body := strings.Repeat(unit, total/len(unit))
+			for _, s := range []string{"SELECT '" + body + "' FROM t", "SELECT \"" + body + "\" FROM t", "SELECT '" + body, "SELECT a FROM t WHERE c = \"" + body, "SELECT " + body + " FROM t"} {
+				if !r.mine() {
+					continue
+				}
+				label := fmt.Sprintf("%.24q…(%d bytes of %q)", s, len(s), unit)
+				r.prog.Set("text:long-errors", label)
+				var m0, m1 runtime.MemStats
+				runtime.ReadMemStats(&m0)
+				res, err, pan := c09ParseText(s)
+				runtime.ReadMemStats(&m1)
+				r.judge("text:long-errors", label, res, err, pan)
+				if alloc, limit := m1.TotalAlloc-m0.TotalAlloc, uint64(1<<20+1000*len(s)); alloc > limit {
+					r.rep.AddFailure(&lib.Failure{Kind: "parser-memory", Detail: fmt.Sprintf("[text:long-errors] input %s: parsing allocated %d bytes, %d times the input length (limit %d)", label, alloc, alloc/uint64(len(s)), limit),
+						Trace: []string{"text:long-errors", s}, Params: "text:long-errors"})
+				}
+			}
+		}
+	}
 	// ---- (vi) every word of every corpus statement replaced by a word / literal of 1..48 multi-byte characters
 	// (2, 3 and 4 bytes each): whatever the parser does with it - accept it or name it in an error - byte length
 	// and character count differ here
